@@ -37,6 +37,21 @@ def key_tie(ctx, findings, n, npairs, own_property=True, relevant=None):
         ctx.distinct_nontrivial += int(d.group(1)) if d else 0
     else:
         ctx.broken.append('correspondence key: modeld missing')
+    # the same request in a fresh process: a key must not depend on per-process state (hash-map seeds, addresses, start-up time)
+    reqs = open(f'{w}/req.txt').read().splitlines(); keys = open(f'{w}/keys.txt').read().splitlines(); picked = []
+    for i, l in enumerate(reqs):
+        t = l.split()      # result keys only: a preprocessor-level key also depends on the scratch input file as it was during the run
+        if t and t[0] != 'pre' and len(t) > 5 and t[5].count(',') >= 1: picked.append(i)
+    picked = picked[:: max(1, len(picked) // (60 if ctx.quick() else 600))]
+    xproc = []
+    for i in picked:
+        rc, out, dt = sh([harness_bin('h_key'), 'one', reqs[i]], env=e)
+        mk = re.search(r'[0-9a-f]{64}', out); k = mk.group(0) if mk else out.strip()[-40:]
+        mo = re.search(r'[0-9a-f]{64}', keys[i]); k0 = mo.group(0) if mo else keys[i].strip()[-40:]
+        if rc == 0 and (mk is not None or mo is not None) and k != k0:
+            xproc.append({'kind': 'unstable', 'detail': f'the same request has key {k0[:16]}… in one process and {k[:16]}… in the next (request line {i} of the h_key run; several environment pairs)', 'ops': [reqs[i]]})
+    ctx.cov['keys_recomputed_in_fresh_processes'] = len(picked); ctx.evaluations += len(picked)
+    s['monitor_failures'] = xproc[:3] + s['monitor_failures']
     ctx.evaluations += s['requests'] + 2 * s['pairs'] + sum(s.get('populations', {}).values())
     ctx.rules.append('h_key: structured requests (14 languages, 0-4 args incl. empty and non-UTF-8, 0-2 extra digests, 0-4 env pairs with and without allow-listed names, '
                      'preprocessor-like payloads; one third are preprocessor-level keys on real input files) + pair families of the quantifier (single change, split/merge/shift, '
